@@ -17,7 +17,7 @@ RULE = (
     "plus the quick set. Observation: GroupKeyEnvelope.get_kek(KeyIdentifier) in nonce mode and compute_l2_key. Covered pair: KEK must equal the reference chain from the root key; "
     "non-covered pair: must raise within 80 KDF calls / 5 s CPU. A second harness goes through the public API on the sub-lattice: a KeyCache primed by one unprotect via the reference DC (policies: exact position, (L1',31), latest of the L0) then offline unprotect of a reference-encrypted blob at (L1,L2): covered => plaintext, not covered => the library tries the network. Every (shape, request) pair is distinct by construction; non-trivial = the real derivation was entered."
     ' Also one root key id that successively holds 8 different key values in throw-away caches with throw-away key objects (object addresses reused).'
-    ' Also protects on the long-lived cache while the clock steps backwards and forwards across L2 / L1 / L0 boundaries (9 positions, sync and async).'
+    ' Also protects on the long-lived cache while the clock steps backwards and forwards across L2 / L1 / L0 boundaries (9 positions, sync and async), and while it advances between two reads inside one call (4 boundaries x 9 starts x 3 step sizes x sync/async).'
 )
 ASSUME = ["ref/gkdi.Chain calibrated on the 16 Windows vectors (position (17,13))", "KBKDFHMAC.derive is the library's only KDF primitive (call counter)"]
 BOUND = {"quick": "8^4 boundary sub-lattice x shapes x 4 hashes x 2 key sets", "thorough": "full 32^4 lattice x shapes (SHA512) + quick set"}
@@ -254,6 +254,30 @@ def rootcache_shard(acc, seed: int, part: int) -> None:
                 okp = False
             if not okp:
                 acc.violate("rootcache.protect-clock-steps", ["rootcache", part, "clock-steps", api_, li, list(pos)], {"outcome": kind, "value": repr(val)[:80]})
+    # ... and while the clock ADVANCES between two reads inside one call (start -6..+2 ticks around an L0 / L1 / L2 boundary, +1..3 ticks per
+    # read): whichever instant the call labels the blob with, the key inside is the key of that label (the reference decryptor opens it)
+    for api_ in ("sync", "async"):
+        for bpos in ((361, 0, 0), (360, 7, 0), (360, 7, 9), (512, 0, 0)):
+            base_ = ((bpos[0] * 1024) + bpos[1] * 32 + bpos[2]) * gkdi.B
+            for start_ in range(-6, 3):
+                for step_ in (1, 2, 3):
+
+                    def _prot2(api_=api_, t0=base_ + start_, step_=step_):
+                        with seams.ticking_clock(t0, step_):
+                            if api_ == "sync":
+                                return dpapi_ng.ncrypt_protect_secret(PT, sids[0], root_key_identifier=rk.rkid, cache=cache)
+                            from mc import vloop
+
+                            return vloop.run(dpapi_ng.async_ncrypt_protect_secret(PT, sids[0], root_key_identifier=rk.rkid, cache=cache))
+
+                    kind, val = seams.outcome_of(_prot2)
+                    n += 1
+                    try:
+                        okp = kind == "ok" and cms.ref_decrypt(rk, bytes(val)) == PT
+                    except Exception:  # noqa: BLE001
+                        okp = False
+                    if not okp:
+                        acc.violate("rootcache.protect-clock-ticks", ["rootcache", part, "clock-ticks", api_, list(bpos), start_, step_], {"outcome": kind, "value": repr(val)[:80]})
     # root key BYTES with special octets at either end (ASCII white space, NUL, 0xFF, quote): the key is binary, nothing may be trimmed
     for edge in (b" ", b"\n", b"\t\r", b"\x00", b"\xff", b"\x0b\x0c", b"'", b"="):
         for where in ("head", "tail", "both"):
